@@ -594,7 +594,7 @@ func init() {
 	// engine calls whose answer the check judges: an expired deadline / a raft group that has no leader at the moment is no answer
 	// ("create of absent table \"sys\" failed: timeout" was reported once as create-refused on a machine with a load average of 45)
 	vt.UnjudgedOnTimeout(prop+"/create-refused", prop+"/duplicate-create-accepted", prop+"/delete-refused", prop+"/delete-of-absent-table",
-		prop+"/table-unreadable", prop+"/write-to-absent-table", prop+"/read-of-absent-table", prop+"/restored-table-missing", prop+"/lookup-differs")
+		prop+"/table-unreadable", prop+"/restore-error", prop+"/write-to-absent-table", prop+"/read-of-absent-table", prop+"/restored-table-missing", prop+"/lookup-differs")
 }
 
 func TestC14(t *testing.T)        { vt.Check(t, prop, genCase, runEngine) }
